@@ -127,10 +127,12 @@ Apply(S, a) ==
                                     ELSE S.fd[f]]]
       [] a.kind = "StartFeed" ->
            IF hd.st # "open" THEN S
-           ELSE [S EXCEPT !.store[hd.n][hd.u].c1 = (@ \/ a.fk = "multi" \/ (a.fk # "bucket" /\ a.c = "c1")),
+           ELSE [S EXCEPT !.store[hd.n][hd.u].c1 = (@ \/ a.fk \in {"multi", "mdump"} \/ (a.fk # "bucket" /\ a.c = "c1")),
                           !.fd[a.f] =
-                    LET lo == hd.stale /\ (a.fk = "multi" \/ (a.fk # "bucket" /\ a.c = "c1")) IN
-                    IF a.fk \in {"dump", "dumpnb"} THEN [st |-> "ended", n |-> hd.n, u |-> hd.u, colls |-> {a.c}, kind |-> a.fk, done |-> TRUE, loose |-> lo]
+                    LET lo == hd.stale /\ (a.fk \in {"multi", "mdump"} \/ (a.fk # "bucket" /\ a.c = "c1")) IN
+                    IF a.fk \in {"dump", "dumpnb", "mdump"}
+                    THEN [st |-> "ended", n |-> hd.n, u |-> hd.u, colls |-> IF a.fk = "mdump" THEN {"c0", "c1", "c3"} ELSE {a.c},
+                          kind |-> a.fk, done |-> TRUE, loose |-> lo]
                     ELSE [st |-> "running", n |-> hd.n, u |-> hd.u,
                           colls |-> IF a.fk = "multi" THEN {"c0", "c1", "c3"} ELSE IF a.fk = "bucket" THEN {"c0"} ELSE {a.c},
                           kind |-> a.fk, done |-> FALSE, loose |-> lo]]
@@ -150,7 +152,7 @@ Enabled(S) ==
     \cup {Act("Drop", h, "-", "-", "-", "c1", "-", "-") : h \in {x \in Handles : S.hs[x].st = "open"}}
     \cup {Act("PutDDoc", h, "-", "-", "-", "c1", "-", "-") : h \in {x \in Handles : S.hs[x].st = "open"}}
     \cup {Act("StartFeed", h, "-", "-", "-", c, f, fk) : h \in {x \in Handles : S.hs[x].st \in {"open", "closed"}},
-              c \in Colls, f \in {x \in FeedIds : S.fd[x].st = "none"}, fk \in {"live", "dump", "dumpnb", "multi", "bucket", "ckpt"}}
+              c \in Colls, f \in {x \in FeedIds : S.fd[x].st = "none"}, fk \in {"live", "dump", "dumpnb", "multi", "mdump", "bucket", "ckpt"}}
     \cup {Act("StopFeed", "h1", "-", "-", "-", "-", f, "-") : f \in {x \in FeedIds : S.fd[x].st = "running"}}
 
 =============================================================================
